@@ -247,7 +247,7 @@ def _sites(prog, kind):
                     out.append((d, e))
                 elif kind == "retarget" and e["e"] == "call":
                     out.append((d, e))
-                elif kind == "hide" and e["e"] == "call":
+                elif kind == "hide" and e["e"] == "call" and resolve_fn(prog, e["f"])["memento"]:
                     out.append((d, e))
                 elif kind == "unhide" and e["e"] == "hidden":
                     out.append((d, e))
@@ -303,7 +303,7 @@ def apply_edit(prog, edit, tag):
     elif kind == "setmember":
         i = edit.get("idx", 0) % len(e["s"])
         v = e["s"][i]
-        e["s"][i] = (v + delta + 100) if isinstance(v, int) else (v + "x")
+        e["s"][i] = (v + delta + 100) if isinstance(v, (int, float)) and not isinstance(v, bool) else (str(v) + "x")
     elif kind == "tupmember":
         i = edit.get("idx", 0) % len(e["t"])
         e["t"][i] = e["t"][i] + delta
@@ -360,7 +360,7 @@ def apply_edit(prog, edit, tag):
 # ------------------------------------------------------------------------------------------
 
 def program_strategy(max_fns=6, two_modules=True, allow_hidden=True, allow_explicit=True, allow_cluster=True,
-                     str_sets=True):
+                     str_sets=True, allow_hidden_plain=False):
     from hypothesis import strategies as st
 
     small = st.integers(0, 9)
@@ -378,6 +378,7 @@ def program_strategy(max_fns=6, two_modules=True, allow_hidden=True, allow_expli
             defs.append({"k": "var", "mod": draw(st.sampled_from(modules)), "name": "G%d" % i, "vtype": vt, "value": val})
         fnames = ["f%d" % i for i in range(nf)]
         fmods = {n: draw(st.sampled_from(modules)) for n in fnames}
+        fmem = {n: (True if n == "f0" else draw(st.sampled_from([True, True, True, False]))) for n in fnames}
         extra = []
         for n in fnames:
             if draw(st.integers(0, 5)) == 0:
@@ -396,6 +397,9 @@ def program_strategy(max_fns=6, two_modules=True, allow_hidden=True, allow_expli
             return st.one_of(*opts)
 
         def setlit():
+            if str_sets and draw(st.integers(0, 3)) == 0:
+                # mixed member types, as in `x in {"none", "", None}` or `x in {1, "one", 2.5}`
+                return draw(st.lists(st.sampled_from(["a", "bb", "", "none", 1, 7, None, 2.5]), min_size=2, max_size=4, unique=True))
             if str_sets and draw(st.booleans()):
                 return draw(st.lists(st.sampled_from(["a", "b", "cc", "dd", "e", "zz"]), min_size=2, max_size=4, unique=True))
             return draw(st.lists(small, min_size=1, max_size=3, unique=True))
@@ -417,7 +421,7 @@ def program_strategy(max_fns=6, two_modules=True, allow_hidden=True, allow_expli
             return {"e": "comp", "c": draw(small), "x": simple(has_k, has_kw, depth + 1)}
 
         for n in fnames:
-            memento = draw(st.sampled_from([True, True, True, False])) if n != "f0" else True
+            memento = fmem[n]
             has_k = draw(st.integers(0, 2)) == 0
             has_kw = draw(st.integers(0, 3)) == 0
             d = {"k": "fn", "mod": fmods[n], "name": n, "memento": memento, "version": None, "cluster": None,
@@ -430,7 +434,10 @@ def program_strategy(max_fns=6, two_modules=True, allow_hidden=True, allow_expli
             body = simple(has_k, has_kw)
             for _ in range(draw(st.integers(0, 2))):
                 tgt = draw(st.sampled_from(call_targets))
-                if allow_hidden and draw(st.integers(0, 5)) == 0:
+                # hidden calls only to memento functions: a dynamically dispatched *plain* helper can be neither
+                # detected nor refused by the library (known finding hidden-plain-callee)
+                tgt_memento = fmem[tgt[:-2] if tgt.endswith("_r") else tgt]
+                if allow_hidden and (tgt_memento or allow_hidden_plain) and draw(st.integers(0, 5)) == 0:
                     call = {"e": "hidden", "f": tgt, "via": draw(st.sampled_from(["globals", "sysmod"]))}
                 else:
                     call = {"e": "call", "f": tgt}
@@ -475,3 +482,14 @@ def features(prog):
     if any(d["k"] in ("alias", "wrapper") for d in prog["defs"]):
         f.add("alias-or-wrapper")
     return sorted(f)
+
+
+def hidden_plain_reachable(prog, name):
+    """does anything reachable from `name` make a hidden call to a plain (non-memento) function?"""
+    for n in reach(prog, name):
+        d = find(prog, n)
+        if d["k"] == "fn":
+            for e in exprs_of(d):
+                if e["e"] == "hidden" and not resolve_fn(prog, e["f"])["memento"]:
+                    return True
+    return False
